@@ -43,8 +43,11 @@ fn strategy(tier: Tier) -> BoxedStrategy<CrashCase> {
             d = d.next_day().unwrap(); k += 1;
         }
         // "today" of the interrupted run: so that about `nrows` rows are written
-        let today = ymd(year, 1, 1) + Duration::days(nrows.min(365) as i64);
-        let requested = today - Duration::days(1 + (req % 9) as i64);
+        let mut today = ymd(year, 1, 1) + Duration::days(nrows.min(365) as i64);
+        let mut requested = today - Duration::days(1 + (req % 9) as i64);
+        // a fifth of the first downloads are of a COMPLETED year (the run happens early in the next one; the whole year is written, down to
+        // its last observation at the end of December) and ask for one of its last days
+        if prior == 0 && req % 5 == 0 { today = ymd(year + 1, 1, 20) + Duration::days((nrows % 40) as i64); requested = ymd(year, 12, 31) - Duration::days((req / 5 % 4) as i64); }
         let prior_today = match prior { 0 => None, 1 => Some(today - Duration::days(40)), _ => Some(today - Duration::days(12)) };
         let later_lookups = looks.iter().map(|x| ymd(year, 1, 1) + Duration::days((*x as i64) % (nrows as i64 + 5))).collect();
         CrashCase { cal, year, today, requested, prior_today, later_lookups, stride, prior_symlink: prior == 3 }
@@ -129,6 +132,7 @@ fn check(c: &CrashCase, obs: &mut O) -> Verdict {
         if let Some(last) = dates_present.last() { looks.push(*last + Duration::days(1)); }
         looks.push(c.requested);
         looks.extend(c.later_lookups.iter().cloned());
+        if c.today.year() > c.year { for k in 0..3 { looks.push(ymd(c.year, 12, 31) - Duration::days(k)); } }
         for d in looks {
             match guard(|| l2.blocking_get_effective_usd_cad_rate(d)) {
                 Err(pn) => { let _ = std::fs::remove_dir_all(&dir); return Verdict::Fail(format!("panic in the later run after a crash at {:?}: {}", p, pn.sig())); }
@@ -248,12 +252,13 @@ fn check(c: &CrashCase, obs: &mut O) -> Verdict {
     let _ = std::fs::remove_dir_all(&dir);
     for (k, v) in outcomes { obs.class(format!("{k}(x{})", if v > 1000 { ">1000" } else if v > 100 { ">100" } else { "<=100" })); }
     obs.class(format!("steps:{}", steps.join("+")));
+    if c.today.year() > c.year { obs.class("first-download-of-a-completed-year"); }
     obs.class(match (c.prior_today, c.prior_symlink) { (None, _) => "prior:none", (Some(_), false) => "prior:older-complete-file", (Some(_), true) => "prior:older-complete-file-behind-a-symlink" });
     Verdict::Pass
 }
 
 pub fn def() -> PropDef {
-    let mut d = PropDef::new("C14", "fault enumeration: for each generated year content (50-366 rows; rates with 1-10 decimals, below and above 1, zero placeholders for unpublished days) and prior cache state (none / the directory exactly as an earlier complete run of the product left it, hard links and left-over files included, or with the year's file reached through a symbolic link), a run that downloads the year is interrupted at EVERY byte offset of the cache file write (0..len, via the verif_hooks CrashWriter) and at every named step boundary of the write procedure; after each crash a fresh loader (today + 3 days, remote = published calendar) looks up the last three dates present in the file, the first missing date, the interrupted run's date and 5 random dates. In addition, for the last 60 byte offsets of each content: crash, then a COMPLETE run whose download is a few bytes shorter (the bank no longer reports four early observations, nothing else changes), then the look-ups; and for the last 45 byte offsets: a first write interrupted half way (leaving its temporary file), then the re-download interrupted at that offset, then the look-ups. Violation = a look-up returns a rate that differs from the published rate of the date it carries, or (after a single crash) a rate / date other than a run without any cache directory answers for that look-up. Non-trivial = crash point strictly inside a row (file does not end in a newline). Distinct = distinct (content, crash point).");
+    let mut d = PropDef::new("C14", "fault enumeration: for each generated year content (50-366 rows, or a completed year downloaded early in the next one; rates with 1-10 decimals, below and above 1, zero placeholders for unpublished days) and prior cache state (none / the directory exactly as an earlier complete run of the product left it, hard links and left-over files included, or with the year's file reached through a symbolic link), a run that downloads the year is interrupted at EVERY byte offset of the cache file write (0..len, via the verif_hooks CrashWriter) and at every named step boundary of the write procedure; after each crash a fresh loader (today + 3 days, remote = published calendar) looks up the last three dates present in the file, the first missing date, the interrupted run's date and 5 random dates. In addition, for the last 60 byte offsets of each content: crash, then a COMPLETE run whose download is a few bytes shorter (the bank no longer reports four early observations, nothing else changes), then the look-ups; and for the last 45 byte offsets: a first write interrupted half way (leaving its temporary file), then the re-download interrupted at that offset, then the look-ups. Violation = a look-up returns a rate that differs from the published rate of the date it carries, or (after a single crash) a rate / date other than a run without any cache directory answers for that look-up. Non-trivial = crash point strictly inside a row (file does not end in a newline). Distinct = distinct (content, crash point).");
     d.level = "fault_enumeration";
     d.exhaustive = true;
     d.assumptions = vec!["crash model: operations persist in program order (what the hook sees); a filesystem that reorders un-synced writes behind a rename is outside this model", "byte offsets are exhaustive per generated content; contents are sampled"];
